@@ -62,7 +62,7 @@ def asarray(
     elif type(a).__module__.split(".")[0] == "xarray" and hasattr(
         a, "data"
     ):  # pragma: no cover
-        return asarray(a.data)
+        return asarray(a.data, dtype=dtype, chunks=chunks, spec=spec)
     elif not isinstance(getattr(a, "shape", None), Iterable):
         a = nxp.asarray(a, dtype=dtype)
 
